@@ -177,6 +177,26 @@ fn nucleo_candidates(n: &NucleoScript) -> Vec<NucleoScript> {
                             };
                             out.push(c);
                         }
+                        // the interesting item is often the last one: also drop from the front, and
+                        // (short batches) each item on its own
+                        let mut drops: Vec<(usize, usize)> = vec![(0, items.len() / 2), (0, 1)];
+                        if items.len() <= 24 {
+                            drops.extend((1..items.len() - 1).map(|k| (k, k + 1)));
+                        }
+                        for (a, b) in drops {
+                            if b <= a || b - a >= items.len() {
+                                continue;
+                            }
+                            let mut rest = items[..a].to_vec();
+                            rest.extend_from_slice(&items[b..]);
+                            let mut c = n.clone();
+                            c.writers[w][i] = WOp::Extend {
+                                lie: lie.clone(),
+                                panic_at: panic_at.map(|p| p.min(rest.len() as u32 - 1)),
+                                items: rest,
+                            };
+                            out.push(c);
+                        }
                     }
                     if *lie != Lie::Honest {
                         let mut c = n.clone();
